@@ -25,6 +25,9 @@ enum BoxChoice {
 	Spec(BoxSpec),
 	/// explicit box (exhaustive phase); `empty`: 0 = not empty, 1 = new_empty, 2 = set_empty
 	Exact { z: u8, x0: u32, y0: u32, x1: u32, y1: u32, empty: u8 },
+	/// a consumer that opens the stream over this box, takes `take` tiles and drops it; nothing
+	/// is asserted about it, the boxes after it are checked on the same source
+	Abandon { spec: BoxSpec, take: u8 },
 }
 
 #[derive(Clone, Debug, Serialize, Deserialize)]
@@ -50,7 +53,17 @@ fn src(max_zoom: u8) -> impl Strategy<Value = Src> {
 }
 
 fn strategy() -> impl Strategy<Value = Case> {
-	(src(31), proptest::collection::vec(box_spec().prop_map(BoxChoice::Spec), 1..6)).prop_map(|(src, boxes)| Case { src, boxes })
+	let one = prop_oneof![
+		6 => box_spec().prop_map(BoxChoice::Spec),
+		1 => (box_spec(), 0u8..6).prop_map(|(spec, take)| BoxChoice::Abandon { spec, take }),
+	];
+	(src(31), proptest::collection::vec(one, 1..6), box_spec()).prop_map(|(src, mut boxes, last)| {
+		// an abandoned stream is followed by a checked one
+		if matches!(boxes.last(), Some(BoxChoice::Abandon { .. })) {
+			boxes.push(BoxChoice::Spec(last));
+		}
+		Case { src, boxes }
+	})
 }
 
 // ---------------------------------------------------------------------------------------
@@ -125,8 +138,21 @@ fn oracle(case: &Case, obs: &mut Obs) -> Result<(), Fail> {
 	}
 	let cov = b.source.coverage();
 	let mut nontrivial = false;
+	let mut after_abandon = false;
 	for choice in &case.boxes {
 		let bbox = match choice {
+			BoxChoice::Abandon { spec, take } => {
+				let bbox = resolve_box(spec, &cov, b.max_side);
+				let desc = format!("{bbox:?}");
+				match b.source.stream_abandon(bbox, *take as usize) {
+					Ok(n) => {
+						obs.label(if n == *take as usize && n > 0 { "abandoned-stream:midway" } else if n == 0 { "abandoned-stream:before-first-tile" } else { "abandoned-stream:at-its-end" }.to_string());
+						after_abandon = true;
+					}
+					Err(p) => return Err(Fail::from_panic(&format!("stream over box {desc}, dropped after {take} tiles"), &p)),
+				}
+				continue;
+			}
 			BoxChoice::Spec(s) => resolve_box(s, &cov, b.max_side),
 			BoxChoice::Exact { z, x0, y0, x1, y1, empty } => match empty {
 				1 => TileBBox::new_empty(*z).unwrap(),
@@ -155,6 +181,9 @@ fn oracle(case: &Case, obs: &mut Obs) -> Result<(), Fail> {
 			}
 		};
 		obs.count("streamed-tiles", stream.len() as u64);
+		if after_abandon && !stream.is_empty() {
+			obs.label("stream-after-abandoned-stream".to_string());
+		}
 		// (ii) everything delivered lies inside, once, and equals the lookup
 		let mut seen: BTreeMap<Coord, &Vec<u8>> = BTreeMap::new();
 		for (c, bytes) in &stream {
@@ -242,7 +271,7 @@ fn main() {
 	let mut check = Check::from_args(
 		"C02",
 		"exploration",
-		"sources: container readers over fixtures (written by the repository's writers or the harness's independent encoders incl. sparse/partial versatiles blocks, PMTiles runs/leaves, MBTiles views), the converting reader (4 flag combinations, recompression, zoom selection), pipelines rendered to VPL (from_container, from_debug, from_overlayed, from_vectortiles_merged, filter_zoom, filter_bbox, nested to depth 3); boxes positioned relative to the advertised coverage (inside, overlapping an edge, outside, containing, row/column, whole 256-blocks +-1, both empty encodings, levels without data), exhaustively all boxes at zoom <= 2, one versatiles block with > 64 MiB of tile data, and a phase in which each case runs in a child process restricted to one CPU (num_cpus::get() = 1; a stream whose future is pending, never woken again and without live tasks in the runtime counts as 'does not finish'); oracle: stream terminates, every delivered tile is inside the box, unique and equal to the lookup, and every coordinate of the box (all of them up to 4096, else all model-tile coordinates and corners) with a lookup result is delivered; non-trivial = box partially overlapping / containing the coverage or on a level without data, on a source with >= 2 distinct tiles",
+		"sources: container readers over fixtures (written by the repository's writers or the harness's independent encoders incl. sparse/partial versatiles blocks, PMTiles runs/leaves, MBTiles views), the converting reader (4 flag combinations, recompression, zoom selection), pipelines rendered to VPL (from_container, from_debug, from_overlayed, from_vectortiles_merged, filter_zoom, filter_bbox, nested to depth 3); boxes positioned relative to the advertised coverage (inside, overlapping an edge, outside, containing, row/column, whole 256-blocks +-1, both empty encodings, levels without data; now and then a consumer that opens a stream, takes 0-5 tiles and drops it, before the next checked box on the same source), exhaustively all boxes at zoom <= 2, one versatiles block with > 64 MiB of tile data, and a phase in which each case runs in a child process restricted to one CPU (num_cpus::get() = 1; a stream whose future is pending, never woken again and without live tasks in the runtime counts as 'does not finish'); oracle: stream terminates, every delivered tile is inside the box, unique and equal to the lookup, and every coordinate of the box (all of them up to 4096, else all model-tile coordinates and corners) with a lookup result is delivered; non-trivial = box partially overlapping / containing the coverage or on a level without data, on a source with >= 2 distinct tiles",
 	);
 	check.assume("multi-thread tokio runtime with 3 workers per runner thread; lookups with empty payloads are not distinguished from absent tiles");
 	vt::engine::watchdog(3600);
